@@ -32,6 +32,34 @@ class VSock:
 	def setblocking(self, flag):
 		pass
 
+	def settimeout(self, t):
+		pass
+
+	def gettimeout(self):
+		return 0.0
+
+	def getsockopt(self, *a):
+		return 0
+
+	def shutdown(self, how):
+		pass
+
+	def __enter__(self):
+		return self
+
+	def __exit__(self, *a):
+		self.close()
+
+	def recv_into(self, buf, nbytes = 0):
+		data = self.recv(nbytes or len(buf))
+		buf[:len(data)] = data
+		return len(data)
+
+	def recvfrom_into(self, buf, nbytes = 0):
+		data, src = self.recvfrom(nbytes or len(buf))
+		buf[:len(data)] = data
+		return len(data), src
+
 	def bind(self, addr):
 		host, port = addr
 		if port == 0:
